@@ -137,6 +137,8 @@ def run(prog, rep):
     if ct is None:
         raise AnalysisError('_collect_attributes_from_topo vanished')
     fq = f'{az.name}._collect_attributes_from_topo'
+    # helpers split off the topology collector are read as part of it (the per-element collectors stay calls)
+    ct = inline(prog, az, ct, exclude=tuple(n_ for n_ in az.all_method_names() if n_.startswith('_collect_attributes_from_')))
     consumer_loops = [n for n in ct.body if isinstance(n, ast.For) and
                       any(isinstance(c, ast.Call) and call_name(c) == '_collect_attributes_from_ns' for c in ast.walk(n))]
     if len(consumer_loops) != 1:
@@ -145,6 +147,12 @@ def run(prog, rep):
     cons_call = [c for c in ast.walk(cons) if isinstance(c, ast.Call) and call_name(c) == '_collect_attributes_from_ns'][0]
     passed = [a for a in cons_call.args[1:]] + [k.value for k in cons_call.keywords]
     passed_names = [a.id for a in passed if isinstance(a, ast.Name)]
+    # a local that merely names the collection built under another name (result of an inlined helper)
+    for _ in range(3):
+        for i_, nm_ in enumerate(passed_names):
+            defs_ = [a_.value for a_ in walk_no_nested(ct) if isinstance(a_, ast.Assign) and any(isinstance(t_, ast.Name) and t_.id == nm_ for t_ in a_.targets)]
+            if len(defs_) == 1 and isinstance(defs_[0], ast.Name):
+                passed_names[i_] = defs_[0].id
     blds = builders(ct)
     body_index = {id(st): i for i, st in enumerate(ct.body)}
 
